@@ -16,6 +16,9 @@ type Gen func(rng *hx.Rng, tier string, w *hx.Writer) error
 
 var Registry = map[string]Gen{}
 
+// SubRegistry: scenarios that run in a child process (see hx.RunSub).
+var SubRegistry = map[string]func(arg string) string{}
+
 var (
 	Bn    = suites.MustFind("bn256")
 	Ed    = edwards25519.NewBlakeSHA256Ed25519()
